@@ -340,11 +340,15 @@ Proof.
     repeat split; auto; fold (sa_g_set_tangents g true); fold g1; rewrite sa_mapi_length; assumption.
 Qed.
 
+(* the colour array after Create: cut or padded with white to the new count, or still absent *)
+Definition sa_cols_after (g : sa_geom) (nv : N) : list sa_c4 :=
+  if sa_g_hc g then vresize sa_c4one (sa_g_cols g) nv else [].
+
 Lemma sa_g_create_data_spec g verts uvs norms :
   let nv := sa_nv_of verts in
   exists g', sa_g_create_data bsphere gtan g verts uvs norms = Ok g'
     /\ sa_g_nv g' = nv /\ sa_g_verts g' = firstn (N.to_nat nv) verts
-    /\ sa_g_hv g' = sa_g_hv g /\ sa_g_hc g' = sa_g_hc g /\ sa_g_cols g' = sa_g_cols g
+    /\ sa_g_hv g' = sa_g_hv g /\ sa_g_hc g' = sa_g_hc g /\ sa_g_cols g' = sa_cols_after g nv
     /\ sa_g_nt g' = sa_g_nt g /\ sa_g_ntp g' = sa_g_ntp g /\ sa_g_ht g' = sa_g_ht g /\ sa_g_tris g' = sa_g_tris g
     /\ sa_g_xtan g' = sa_g_xtan g
     /\ sa_g_uv_ok g' /\ length (sa_g_norms g') = (if sa_g_hn g' then N.to_nat nv else O)
@@ -359,7 +363,7 @@ Proof.
   rewrite <- L0. rewrite sa_upd2_ok by lia. rewrite firstn_all, skipn_all, app_nil_r. rewrite L0. cbn [bind].
   rewrite sa_zip_snd by (rewrite firstn_length; lia).
   set (vs := firstn (N.to_nat nv) verts).
-  set (g1 := sa_mkG nv _ _ _ _ vs _ _ _ _ _ _ _ _ _ _ _).
+  match goal with |- context [sa_g_create_uvs ?x nv uvs] => set (g1 := x) end.
   destruct (sa_g_create_uvs_spec g1 uvs) as [g3 [E3 [CS3 [UO3 [UC3 [A1 [A2 [A3 [A4 A5]]]]]]]]].
   change (sa_g_nv g1) with nv in *. rewrite E3. cbn [bind].
   destruct CS3 as [[B1 [B2 [B3 [B4 [B5 [B6 [B7 B8]]]]]]] [B9 [B10 B11]]].
@@ -387,7 +391,7 @@ Lemma sa_g_create_gen_spec g verts tris uvs norms :
   let nt := match tris with Some t => sa_nt_of 65535 nv t | None => sa_g_nt g end in
   exists g', sa_g_create bsphere gtan g verts tris uvs norms = Ok g'
     /\ sa_g_nv g' = nv /\ sa_g_verts g' = firstn (N.to_nat nv) verts /\ sa_g_hv g' = sa_g_hv g
-    /\ sa_g_hc g' = sa_g_hc g /\ sa_g_cols g' = sa_g_cols g
+    /\ sa_g_hc g' = sa_g_hc g /\ sa_g_cols g' = sa_cols_after g nv
     /\ sa_g_nt g' = nt /\ sa_g_ntp g' = (if 0 <? nt then nt * 3 else 0) /\ sa_g_ht g' = (0 <? nt)
     /\ sa_g_tris g' = match tris with Some t => firstn (N.to_nat nt) t | None => sa_g_tris g end
     /\ sa_g_uv_ok g' /\ length (sa_g_norms g') = (if sa_g_hn g' then N.to_nat nv else O)
@@ -397,7 +401,7 @@ Lemma sa_g_create_gen_spec g verts tris uvs norms :
 Proof.
   intros nv nt. unfold sa_g_create.
   destruct (sa_g_create_data_spec g verts uvs norms) as [g1 [E1 [A1 [A2 [A3 [A4 [A5 [A6 [A7 [A8 [A9 [A10 [A11 [A12 [A13 [A14 A15]]]]]]]]]]]]]]]].
-  fold nv in A1, A2, A12, A13, A14, A15. rewrite E1. cbn [bind]. rewrite A1.
+  fold nv in A1, A2, A5, A12, A13, A14, A15. rewrite E1. cbn [bind]. rewrite A1.
   assert (NTE : match tris with
                 | Some t => if nv =? 0 then 0 else if sa_u16max <? vlen t then sa_u16max else vlen t
                 | None => sa_g_nt g1 end = nt).
